@@ -1,4 +1,5 @@
 import Poulpy.Model.Core.Enc
+import Poulpy.Model.Galois
 
 /-!
 Seed-compressed matrices of GLWE ciphertexts (`poulpy-core/src/encryption/compressed/{gglwe,ggsw,
@@ -231,5 +232,146 @@ def g2gLoop (bits b n size kxe rank dnum dsize : Nat) (sk : List Poly) (expand :
 def g2gEncryptCompressed (bits b n size kxe rank dnum dsize : Nat) (pts : List (List Poly)) (sk : List Poly)
     (expand : List Nat → List Nat) (seedXa : List Nat) (es : List Poly) : Option (List (List (Nat × CellC))) :=
   g2gLoop bits b n size kxe rank dnum dsize sk expand pts (expand seedXa) es
+
+
+/-! ### the standard (uncompressed) matrix routines and the key wrappers built on them
+
+`gglwe_encrypt_sk` (encryption/gglwe.rs:60) and `ggsw_encrypt_sk` (encryption/ggsw.rs:60) run the same loops as their compressed
+forms with ONE mask source for all cells (no `branch()`): every cell is `glwe_encrypt_sk_internal(…, compressed = false, …)`,
+i.e. `encryptSkStream` on the running `source_xa`, with the next error of `source_xe`.  A key is the list of its cells
+`(storage index, [body, mask₁ … mask_rank])`. -/
+
+/-- the cells of a standard routine in loop order; returns the cells and what is left of the two sources -/
+def standardCells (bits b n size kxe rank : Nat) (sk : List Poly) :
+    List (Nat × Option (Col × Nat)) → List Nat → List Poly → Option (List (Nat × List Col) × List Nat × List Poly)
+  | [], xa, es => some ([], xa, es)
+  | _ :: _, _, [] => none
+  | (idx, pt) :: rest, xa, e :: es =>
+    match encryptSkStream bits b n size kxe rank pt sk xa e with
+    | none => none
+    | some (body, ms, xa') =>
+      match standardCells bits b n size kxe rank sk rest xa' es with
+      | none => none
+      | some (out, xa'', es') => some ((idx, body :: ms) :: out, xa'', es')
+
+/-- **`gglwe_encrypt_sk`** (`tmp0` = content of the scratch temporary on entry; `assert_eq!(res.rank_out(), sk.rank())`,
+`assert_eq!(res.rank_in(), pt.cols())`) -/
+def gglweEncryptSkT (tmp0 : Col) (bits b n size kxe rankOut rankIn dnum dsize : Nat) (pt : List Poly) (sk : List Poly)
+    (xa : List Nat) (es : List Poly) : Option (List (Nat × List Col) × List Nat × List Poly) :=
+  if rankOut ≠ sk.length ∨ rankIn ≠ pt.length then none else
+  match gadgetSeq b n dsize tmp0 (gglweCellSpec rankIn dnum pt) with
+  | none => none
+  | some ds => standardCells bits b n size kxe rankOut sk ds xa es
+
+/-- **`ggsw_encrypt_sk`** -/
+def ggswEncryptSkT (tmp0 : Col) (bits b n size kxe rank dnum dsize : Nat) (pt : Poly) (sk : List Poly)
+    (xa : List Nat) (es : List Poly) : Option (List (Nat × List Col) × List Nat × List Poly) :=
+  if rank ≠ sk.length then none else
+  match ggswRowSeq b n dsize rank pt tmp0 (List.range dnum) with
+  | none => none
+  | some ds => standardCells bits b n size kxe rank sk ds xa es
+
+/-- **`decompress_gglwe` / `decompress_ggsw`**: `decompress_glwe` on every stored cell -/
+def decompressCells (b n rank : Nat) (expand : List Nat → List Nat) (cells : List (Nat × CellC)) : Option (List (Nat × List Col)) :=
+  cells.mapM (fun c => (decompressCell b n rank expand c.2).map (fun cols => (c.1, cols)))
+
+/-- the columns stored at index `j` (`at(row, col)` with `j = row·cols_in + col`) -/
+def cellCols (cells : List (Nat × List Col)) (j : Nat) : List Col :=
+  ((cells.find? (fun c => c.1 == j)).map (·.2)).getD []
+
+/-- the key as the matrix the consumers (`Ks.Key.mat`, `EpGGSW.toPMat`, `GGLWE.toPMat`) work on: `rows = dnum`, `colsIn` input
+columns, `colsOut = rank_out + 1`, row `row·colsIn + col` = the cell's columns -/
+def keyMat (n rows colsIn colsOut size : Nat) (cells : List (Nat × List Col)) : Hal.PMat :=
+  { n := n, rows := rows, colsIn := colsIn, colsOut := colsOut, size := size, data := (List.range (rows * colsIn)).map (cellCols cells) }
+
+/-- **`glwe_switching_key_encrypt_sk`**: both secrets are brought to the module's degree by `vec_znx_switch_ring`
+(`assert!(sk.n() <= module.n())`), then `gglwe_encrypt_sk(res, sk_in, sk_out)` -/
+def glweSwitchingKeyEncryptSk (tmp0 : Col) (bits b n size kxe rankOut rankIn dnum dsize : Nat) (skIn skOut : List Poly)
+    (xa : List Nat) (es : List Poly) : Option (List (Nat × List Col) × List Nat × List Poly) :=
+  if (skIn.any (fun s => decide (n < s.length))) || (skOut.any (fun s => decide (n < s.length))) then none else
+  gglweEncryptSkT tmp0 bits b n size kxe rankOut rankIn dnum dsize (skIn.map (znxSwitchRing n)) (skOut.map (znxSwitchRing n)) xa es
+
+/-- **`glwe_automorphism_key_encrypt_sk`**: the plaintext columns are the secret, the encryption secret is its image under
+`X ↦ X^(p⁻¹)` (`galois_element_inv(p)` modulo the cyclotomic order `2n`) -/
+def glweAutomorphismKeyEncryptSk (tmp0 : Col) (bits b n size kxe rank dnum dsize : Nat) (p : Int) (sk : List Poly)
+    (xa : List Nat) (es : List Poly) : Option (List (Nat × List Col) × List Nat × List Poly) :=
+  match _root_.galoisElementInv p (2 * (n : Int)) with
+  | Outcome.ok gInv => gglweEncryptSkT tmp0 bits b n size kxe rank rank dnum dsize sk (sk.map (znxAutomorphism gInv)) xa es
+  | _ => none
+
+/-- **`glwe_tensor_key_encrypt_sk`**: plaintext columns = the tensor secret (`rank·(rank+1)/2` pairs) -/
+def glweTensorKeyEncryptSk (tmp0 : Col) (bits b n size kxe rank dnum dsize : Nat) (sk : List Poly)
+    (xa : List Nat) (es : List Poly) : Option (List (Nat × List Col) × List Nat × List Poly) :=
+  match tensorSecret bits n sk with
+  | none => none
+  | some pts => gglweEncryptSkT tmp0 bits b n size kxe rank pts.length dnum dsize pts sk xa es
+
+/-- `GLWESecretTensor::at(i, j)`: the pair `(min, max)` at the packed index -/
+def tensorAt (rank : Nat) (pts : List Poly) (i j : Nat) : Poly :=
+  let a := min i j
+  let c := max i j
+  pts.getD (a * rank + c - a * (a + 1) / 2) []
+
+/-- **`gglwe_to_ggsw_key_encrypt_sk`**: sub-key `i` = `gglwe_encrypt_sk` of the columns `s_i·s_0 … s_i·s_{rank−1}`; both sources run on -/
+def g2gStdLoop (tmp0 : Col) (bits b n size kxe rank dnum dsize : Nat) (sk pts : List Poly) :
+    List Nat → List Nat → List Poly → Option (List (List (Nat × List Col)) × List Nat × List Poly)
+  | [], xa, es => some ([], xa, es)
+  | i :: rest, xa, es =>
+    match gglweEncryptSkT tmp0 bits b n size kxe rank rank dnum dsize ((List.range rank).map (tensorAt rank pts i)) sk xa es with
+    | none => none
+    | some (cells, xa', es') =>
+      match g2gStdLoop tmp0 bits b n size kxe rank dnum dsize sk pts rest xa' es' with
+      | none => none
+      | some (out, xa'', es'') => some (cells :: out, xa'', es'')
+
+def gglweToGgswKeyEncryptSk (tmp0 : Col) (bits b n size kxe rank dnum dsize : Nat) (sk : List Poly)
+    (xa : List Nat) (es : List Poly) : Option (List (List (Nat × List Col)) × List Nat × List Poly) :=
+  match tensorSecret bits n sk with
+  | none => none
+  | some pts => g2gStdLoop tmp0 bits b n size kxe rank dnum dsize sk pts (List.range rank) xa es
+
+/-- the GLWE secret an LWE secret is embedded to by the LWE-related key routines: copied to the first `n_lwe` coefficients,
+the rest filled with zeros (`[..n_lwe].copy_from_slice`, `[n_lwe..].fill(0)`: a slice panic when `n_lwe > n`), then
+`vec_znx_automorphism_assign(−1)` -/
+def embedLweSecret (n : Nat) (skLwe : Poly) : Option Poly :=
+  if n < skLwe.length then none else some (znxAutomorphism (-1) (skLwe ++ List.replicate (n - skLwe.length) 0))
+
+/-- **`lwe_switching_key_encrypt_sk`**: both LWE secrets embedded (each with ITS OWN dimension), then the rank-1 switching key -/
+def lweSwitchingKeyEncryptSk (tmp0 : Col) (bits b n size kxe dnum : Nat) (skLweIn skLweOut : Poly)
+    (xa : List Nat) (es : List Poly) : Option (List (Nat × List Col) × List Nat × List Poly) :=
+  match embedLweSecret n skLweIn, embedLweSecret n skLweOut with
+  | some sIn, some sOut => glweSwitchingKeyEncryptSk tmp0 bits b n size kxe 1 1 dnum 1 [sIn] [sOut] xa es
+  | _, _ => none
+
+/-- **`glwe_to_lwe_key_encrypt_sk`**: GLWE secret (rank_in columns) under the embedded LWE secret -/
+def glweToLweKeyEncryptSk (tmp0 : Col) (bits b n size kxe rankIn dnum : Nat) (skLwe : Poly) (skGlwe : List Poly)
+    (xa : List Nat) (es : List Poly) : Option (List (Nat × List Col) × List Nat × List Poly) :=
+  match embedLweSecret n skLwe with
+  | some s => gglweEncryptSkT tmp0 bits b n size kxe 1 rankIn dnum 1 skGlwe [s] xa es
+  | none => none
+
+/-- **`lwe_to_glwe_key_encrypt_sk`**: the embedded LWE secret under the GLWE secret (rank_out columns) -/
+def lweToGlweKeyEncryptSk (tmp0 : Col) (bits b n size kxe rankOut dnum : Nat) (skLwe : Poly) (skGlwe : List Poly)
+    (xa : List Nat) (es : List Poly) : Option (List (Nat × List Col) × List Nat × List Poly) :=
+  match embedLweSecret n skLwe with
+  | some s => gglweEncryptSkT tmp0 bits b n size kxe rankOut 1 dnum 1 [s] skGlwe xa es
+  | none => none
+
+/-- **`blind_rotation_key_encrypt_sk`** (CGGI, standard and block-binary): GGSW `i` = `ggsw_encrypt_sk` of the constant polynomial
+`sk_lwe[i]` (dsize 1), both sources running on -/
+def brkStdLoop (tmp0 : Col) (bits b n size kxe rank dnum : Nat) (sk : List Poly) :
+    List Int → List Nat → List Poly → Option (List (List (Nat × List Col)) × List Nat × List Poly)
+  | [], xa, es => some ([], xa, es)
+  | si :: rest, xa, es =>
+    match ggswEncryptSkT tmp0 bits b n size kxe rank dnum 1 (si :: List.replicate (n - 1) 0) sk xa es with
+    | none => none
+    | some (cells, xa', es') =>
+      match brkStdLoop tmp0 bits b n size kxe rank dnum sk rest xa' es' with
+      | none => none
+      | some (out, xa'', es'') => some (cells :: out, xa'', es'')
+
+def blindRotationKeyEncryptSk (tmp0 : Col) (bits b n size kxe rank dnum : Nat) (skLwe : List Int) (sk : List Poly)
+    (xa : List Nat) (es : List Poly) : Option (List (List (Nat × List Col)) × List Nat × List Poly) :=
+  brkStdLoop tmp0 bits b n size kxe rank dnum sk skLwe xa es
 
 end Core
